@@ -147,7 +147,7 @@ def tdvp_(psi, H,
         yield TDVP_out(times[0], times[0], time_independent, dt, 0)
     # perform time-steps
     for t0, t1 in zip(times[:-1], times[1:]):
-        steps = int((t1 - t0 - 1e-12) // dt) + 1
+        steps = max(int((t1 - t0 - 1e-12) // dt) + 1, 1)  # intervals shorter than the 1e-12 guard take one step
         t, ds = t0, (t1 - t0) / steps
         rsteps = tqdm(range(steps), desc="TDVP...", disable=not progressbar)
         for _ in rsteps:
